@@ -40,8 +40,11 @@ Theorem c10_items_exact : forall (f : fixes) (evs : list ev) (o : nat) (c : cop)
 Proof. exact ConnExact.c10_items_exact. Qed.
 
 (* the PagedResults-adapted stream (model L3.Paged, repaired: F21): however many items the caller has read, on whichever page, a finish() before the end returns the synthetic cancellation (88) - never a page's own result - and scrubs the id of the newest request *)
-Theorem c10_paged_early_finish : forall (params : nat) (uc : list Paged.ctl) (size : N) (srv : list Paged.page) (s0 : Paged.stream) (k : nat) (l : list Paged.item) (s' : Paged.stream), Paged.start params uc size srv = Some s0 -> Paged.take_items true k s0 = (l, s') -> Paged.st s' = Paged.Active -> let '(s'', r, scrub) := Paged.finish s' in r = Paged.cancelled /\ scrub = Some (length (Paged.wire s')) /\ Paged.st s'' = Paged.Closed.
+Theorem c10_paged_early_finish : forall (params : nat) (uc : list Paged.ctl) (size : N) (srv : list Paged.page) (s0 : Paged.stream) (k : nat) (l : list Paged.item) (s' : Paged.stream), Paged.start params uc size srv = Some s0 -> Paged.take_items Paged.prepaired k s0 = (l, s') -> Paged.st s' = Paged.Active -> let '(s'', r, scrub) := Paged.finish s' in r = Paged.cancelled /\ scrub = Some (length (Paged.wire s')) /\ Paged.st s'' = Paged.Closed.
 Proof. exact Paged.c10_paged_early_finish. Qed.
+
+Theorem c10_paged_failed_followup : forall (params : nat) (uc : list Paged.ctl) (size : N) (srv : list Paged.page) (s0 : Paged.stream) (k : nat) (l : list Paged.item) (s1 : Paged.stream) (fuel : nat) (s2 : Paged.stream), Paged.start params uc size srv = Some s0 -> Paged.take_items Paged.prepaired k s0 = (l, s1) -> Paged.st s1 = Paged.Active -> Paged.next Paged.prepaired fuel s1 = (s2, Paged.NErr) -> snd (fst (Paged.finish s2)) = Paged.cancelled.
+Proof. exact Paged.c10_paged_failed_followup. Qed.
 
 Print Assumptions c10_all_call_sequences.
 Print Assumptions c10_start_all_call_sequences.
@@ -55,3 +58,4 @@ Print Assumptions c10_direct_read_all.
 Print Assumptions c10_search_collects.
 Print Assumptions c10_items_exact.
 Print Assumptions c10_paged_early_finish.
+Print Assumptions c10_paged_failed_followup.
